@@ -12,55 +12,76 @@
 From Coq Require Import String.
 From Verif Require Import Lib.Base Lib.Dyadic Lib.Utf8 Model.Printf
   Proofs.PrintfSpec Proofs.PrintfBase Proofs.PrintfInt Proofs.PrintfDir
-  Proofs.PrintfSprintf Proofs.PrintfParse Proofs.PrintfPrint Proofs.PrintfStr Proofs.PrintfMulti.
+  Proofs.PrintfScan Proofs.PrintfSprintf Proofs.PrintfParse Proofs.PrintfPrint Proofs.PrintfStr Proofs.PrintfMulti.
 
 (* ================= format parsing and run-time errors ================= *)
 
-(* parseFmtTypes is total: a format error (one of two), or a rewritten format of the same length *)
+(* parseFmtTypes is total: a format error (one of two), or a translated format whose recorded
+   '*'-precision offsets are consistent (each lies inside the format, they increase by at least 2,
+   and the type of the conversion follows) *)
 Theorem C09_fmt_parse_total : forall s,
   (exists e, parse_fmt_types s = Err e /\ (e = err_expected \/ exists c, e = err_invalid c)) \/
-  (exists g ts, parse_fmt_types s = Ok (g, ts) /\ length g = length s).
+  (exists g ts st, parse_fmt_types s = Ok (g, ts, st) /\ stars_ok ts st 0 (zlen g)).
 Proof. exact fmt_parse_total. Qed.
 Print Assumptions C09_fmt_parse_total.
 
 (* a conversion specification of C's grammar between literal text: the verb is rewritten
-   (i u -> d, c -> s) and the argument types are one 'd' per '*' and then the conversion's type;
-   sprintf takes exactly that many arguments *)
+   (i u -> d, c -> s), g and G without a precision get C's default .6, the argument types are 'd'
+   for a '*' width, 'p' for a '*' precision (with the offset of its ".*") and then the conversion's type *)
 Theorem C09_parse_directive : forall d pre post,
   wf_dir d = true -> no_pct pre = true -> no_pct post = true ->
   parse_fmt_types (pre ++ render d ++ post)
-  = Ok (pre ++ go_render d ++ post, dir_tys d ++ [conv_ty (d_conv d)]).
+  = Ok (pre ++ go_render d ++ post, dir_tys d ++ [conv_ty (d_conv d)], dir_stars d (zlen pre + 1)).
 Proof. exact parse_render. Qed.
 Print Assumptions C09_parse_directive.
 
-Theorem C09_args_consumed : forall chars ffmt ts args i gs,
-  conv_args chars ffmt ts args i = Ok gs -> length gs = length ts.
-Proof. exact conv_args_length. Qed.
-Print Assumptions C09_args_consumed.
+Example C09_ex_g_default_precision :      (* F-C09-1 repaired: %g -> %.6g, %-10G -> %-10.6G, %.3g unchanged *)
+  parse_fmt_types (bs "%g|%-10G|%.3g|%.*g") = Ok (bs "%.6g|%-10.6G|%.3g|%.*g", [TyF; TyF; TyF; TyP; TyF], [19]).
+Proof. vm_compute. reflexivity. Qed.
 
 (* too few arguments: a run-time error *)
-Theorem C09_too_few_args_error : forall chars ffmt s g ts args,
-  parse_fmt_types s = Ok (g, ts) -> zlen args < zlen ts ->
+Theorem C09_too_few_args_error : forall chars ffmt s g ts st args,
+  parse_fmt_types s = Ok (g, ts, st) -> zlen args < zlen ts ->
   sprintf chars ffmt s args = Err (err_args (zlen args) (zlen ts)).
 Proof. exact too_few_args_error. Qed.
 Print Assumptions C09_too_few_args_error.
 
-(* an unknown conversion character (after any accepted prefix, any flag run): a run-time error *)
-Theorem C09_unknown_verb_error : forall chars ffmt pre gp tp run c rest args,
-  parse_fmt_types pre = Ok (gp, tp) -> forallb is_fmtch run = true ->
-  verb_info c = None -> is_fmtch c = false -> (run = [] -> c <> 37) ->
-  sprintf chars ffmt (pre ++ 37 :: run ++ c :: rest) args = Err (s_fmterr ++ err_invalid c).
+(* after any accepted prefix and any specification prefix %[flags][width][.precision], a byte that is
+   no conversion character and cannot continue the specification is a run-time error.  This is the
+   full statement for unknown conversions; since the repair of F-C09-9 it includes flags, '*' and '.'
+   placed after the width or precision (which fmt.Sprintf would have answered with %!verb text). *)
+Theorem C09_unknown_verb_error : forall chars ffmt pre gp tp sp fl w p c rest args,
+  parse_fmt_types pre = Ok (gp, tp, sp) ->
+  forallb is_flag fl = true -> wf_w w = true -> wf_p p = true ->
+  verb_info c = None -> is_verb_pos (mode_wp w p) c = true ->
+  (fl = [] -> w = WNone -> p = PrNone -> (c =? 37) = false) ->
+  sprintf chars ffmt (pre ++ 37 :: spec_text fl w p ++ c :: rest) args = Err (s_fmterr ++ err_invalid c).
 Proof. exact unknown_verb_error. Qed.
 Print Assumptions C09_unknown_verb_error.
 
+Definition nn (z : Z) : value := VNum (FFin z 0).
+Example C09_ex_malformed_directive_error :    (* F-C09-9 repaired *)
+  sprintf false ffmt_unmod (bs "%5-d") [nn 42] = Err (bs "format error: invalid format type -")
+  /\ sprintf false ffmt_unmod (bs "%.3.2f") [nn 3] = Err (bs "format error: invalid format type .")
+  /\ sprintf false ffmt_unmod (bs "%*5d") [nn 3; nn 42] = Err (bs "format error: invalid format type 5")
+  /\ sprintf false ffmt_unmod (bs "%5*d %s") [nn 42; nn 2; nn 3] = Err (bs "format error: invalid format type *")
+  /\ sprintf false ffmt_unmod (bs "%5%") [] = Err (bs "format error: invalid format type %")
+  /\ sprintf false ffmt_unmod (bs "%z") [nn 1] = Err (bs "format error: invalid format type z").
+Proof. repeat split; vm_compute; reflexivity. Qed.
+Example C09_ex_unknown_verb_hyps :            (* the hypotheses of the theorem for "%5-d": width 5, then '-' *)
+  wf_w (WLit [53]) = true /\ verb_info 45 = None /\ is_verb_pos (mode_wp (WLit [53]) PrNone) 45 = true.
+Proof. repeat split; reflexivity. Qed.
+
 (* a format ending inside a conversion specification: a run-time error *)
-Theorem C09_incomplete_spec_error : forall chars ffmt pre gp tp run args,
-  parse_fmt_types pre = Ok (gp, tp) -> forallb is_fmtch run = true ->
-  sprintf chars ffmt (pre ++ 37 :: run) args = Err (s_fmterr ++ err_expected).
+Theorem C09_incomplete_spec_error : forall chars ffmt pre gp tp sp fl w p args,
+  parse_fmt_types pre = Ok (gp, tp, sp) ->
+  forallb is_flag fl = true -> wf_w w = true -> wf_p p = true ->
+  sprintf chars ffmt (pre ++ 37 :: spec_text fl w p) args = Err (s_fmterr ++ err_expected).
 Proof. exact incomplete_spec_error. Qed.
 Print Assumptions C09_incomplete_spec_error.
 
-(* sprintf never panics (argument indexing, the slice in %c), whatever the format and arguments *)
+(* sprintf never panics (argument indexing, the slice in %c, types[i+1], stars[0] and the cut of
+   ".*" out of the format), whatever the format and arguments *)
 Theorem C09_sprintf_no_panic : forall chars ffmt format args,
   (forall x, no_panic (ffmt x)) -> no_panic (sprintf chars ffmt format args).
 Proof. exact sprintf_no_panic. Qed.
@@ -104,25 +125,33 @@ Proof.
 Qed.
 Print Assumptions C09_int_conversions_refuted.
 
-(* what holds: for all int64-range arguments, all widths and precisions up to fmt's 10^6 limit
-   (literal or '*', negative '*' width included), all flag combinations except those of [int_ok]:
+(* what holds: d and i for ALL finite numbers (beyond int64 through math/big since the repair of
+   F-C09-7), o u x X for numbers in [-2^63, 2^64); all widths and precisions up to fmt's 10^6 limit,
+   literal or '*', a negative '*' width and a negative '*' precision included (F-C09-4 repaired); all
+   flag combinations except those of [int_ok], which are the findings still open:
    + / space with o u x X (F-C09-2), # with value 0 for x X (F-C09-3), # 0 width without precision
-   for x X (F-C09-11), value 0 with precision 0 and + / space / #o (F-C09-12); a negative '*'
-   precision (F-C09-4) and widths beyond 10^6 (F-C09-10) are excluded by [in_lim], arguments beyond
-   int64 (F-C09-7) by the range hypothesis. *)
+   for x X (F-C09-11), value 0 with precision 0 and + / space / #o (F-C09-12); widths beyond 10^6
+   (F-C09-10) are excluded by [lim]. *)
 Theorem C09_int_conversions_agree_partial :
   forall chars ffmt d pre post aw ap a extra wv pv v,
   wf_dir d = true -> is_int_conv (d_conv d) = true ->
   no_pct pre = true -> no_pct post = true ->
-  in_lim d wv pv ->
+  lim d wv pv ->
   (d_width d = WStar -> awk_int (v_num aw) = Some wv) ->
   (d_prec d = PrStar -> awk_int (v_num ap) = Some pv) ->
-  awk_int (v_num a) = Some v -> - two63 <= v < two63 ->
+  awk_int (v_num a) = Some v ->
+  (conv_ty (d_conv d) = TyU -> - two63 <= v < two64) ->
   int_ok d (resolve d wv pv) v ->
   sprintf chars ffmt (pre ++ render d ++ post) (args_for d aw ap a extra)
   = Ok (pre ++ c_directive chars d wv pv (AInt v) ++ post).
 Proof. exact sprintf_int_agree. Qed.
 Print Assumptions C09_int_conversions_agree_partial.
+
+(* math/big's Format, which sprintf uses for d and i beyond int64, is C's signed conversion *)
+Theorem C09_big_format_signed : forall f r v, st_matches f r -> v <> 0 ->
+  big_format f v 10 false = c_signed r v.
+Proof. exact big_format_signed. Qed.
+Print Assumptions C09_big_format_signed.
 
 (* the formatter core, for every formatter state that matches a resolved C specification *)
 Theorem C09_fmt_integer_signed : forall f r v, st_matches f r ->
@@ -149,6 +178,7 @@ Print Assumptions C09_digits_denote.
 
 (* ---- one witness per excluded combination (model output vs C) ---- *)
 Definition n (z : Z) : value := VNum (FFin z 0).
+Definition f63 : value := VNum (FFin 1 63).   (* 2^63 *)
 
 Example C09_plus_unsigned_refuted :      (* F-C09-2  %+x of 5 *)
   sprintf false ffmt_unmod (bs "%+x") [n 5] = Ok (bs "+5")
@@ -162,17 +192,18 @@ Example C09_sharp_hex_zero_refuted :     (* F-C09-3  %#x of 0 *)
   sprintf false ffmt_unmod (bs "%#x") [n 0] = Ok (bs "0x0")
   /\ c_directive false (mkDir [35] WNone PrNone Cx) 0 0 (AInt 0) = bs "0".
 Proof. split; vm_compute; reflexivity. Qed.
-Example C09_star_precision_negative_refuted :   (* F-C09-4  %.*d with -1, 5 *)
-  sprintf false ffmt_unmod (bs "%.*d") [n (-1); n 5] = Ok (bs "%!(BADPREC)5")
-  /\ c_directive false (mkDir [] WNone PrStar Cd) 0 (-1) (AInt 5) = bs "5".
-Proof. split; vm_compute; reflexivity. Qed.
-Example C09_beyond_int64_refuted :       (* F-C09-7  %d of 2^63 *)
-  sprintf false ffmt_unmod (bs "%d") [n two63] = Ok (bs "-9223372036854775808")
-  /\ c_directive false (mkDir [] WNone PrNone Cd) 0 0 (AInt two63) = bs "9223372036854775808".
-Proof. split; vm_compute; reflexivity. Qed.
-Example C09_malformed_accepted_refuted :  (* F-C09-9  %5-d is no conversion, yet no error *)
-  sprintf false ffmt_unmod (bs "%5-d") [n 42] = Ok (bs "%!-(int64=   42)d").
-Proof. vm_compute; reflexivity. Qed.
+Example C09_ex_star_precision_negative :   (* F-C09-4 repaired: %.*d with -1, 5; %0*.*d keeps its zero padding *)
+  sprintf false ffmt_unmod (bs "%.*d|%0*.*d|%.*s") [n (-1); n 5; n 6; n (-1); n 42; n (-7); VStr (bs "abc") (FFin 0 0)]
+  = Ok (bs "5|000042|abc")
+  /\ c_directive false (mkDir [] WNone PrStar Cd) 0 (-1) (AInt 5) = bs "5"
+  /\ c_directive false (mkDir [48] WStar PrStar Cd) 6 (-1) (AInt 42) = bs "000042".
+Proof. repeat split; vm_compute; reflexivity. Qed.
+Example C09_ex_beyond_int64 :       (* F-C09-7 repaired: %d of 2^63, %+25d of -2^70, %x of 2^63 *)
+  sprintf false ffmt_unmod (bs "%d|%+25d|%x") [f63; VNum (FFin (-1) 70); f63]
+  = Ok (bs "9223372036854775808|  -1180591620717411303424|8000000000000000")
+  /\ c_directive false (mkDir [] WNone PrNone Cd) 0 0 (AInt two63) = bs "9223372036854775808"
+  /\ c_directive false (mkDir [43] (WLit [50; 53]) PrNone Cd) 0 0 (AInt (- 2 ^ 70)) = bs "  -1180591620717411303424".
+Proof. repeat split; vm_compute; reflexivity. Qed.
 Example C09_width_limit_refuted :        (* F-C09-10  %*d with 1000001 *)
   sprintf false ffmt_unmod (bs "%*d") [n 1000001; n 5] = Ok (bs "%!(BADWIDTH)5")
   /\ sprintf false ffmt_unmod (bs "%12345678d|%d") [n 5; n 6] = Ok (bs "%!(NOVERB)%!(EXTRA int64=5, int64=6)").
@@ -207,7 +238,7 @@ Proof. vm_compute; reflexivity. Qed.
 Definition C09_string_full_statement : Prop :=
   forall chars ffmt d pre post aw ap a extra wv pv s,
   wf_dir d = true -> d_conv d = Cs -> c_defined d = true ->
-  no_pct pre = true -> no_pct post = true -> in_lim d wv pv ->
+  no_pct pre = true -> no_pct post = true -> lim d wv pv ->
   (d_width d = WStar -> awk_int (v_num aw) = Some wv) ->
   (d_prec d = PrStar -> awk_int (v_num ap) = Some pv) ->
   v_str ffmt a = Ok s ->
@@ -218,7 +249,7 @@ Definition C09_string_full_statement : Prop :=
 Theorem C09_string_conversion_refuted : ~ C09_string_full_statement.
 Proof.
   intros H.
-  assert (L : in_lim (mkDir [] WNone (PrLit [49]) Cs) 0 0) by (split; [exact I | vm_compute; discriminate]).
+  assert (L : lim (mkDir [] WNone (PrLit [49]) Cs) 0 0) by (split; [exact I | vm_compute; discriminate]).
   specialize (H false ffmt_unmod (mkDir [] WNone (PrLit [49]) Cs) [] [] VNull VNull (VStr [195; 169] (FFin 0 0)) [] 0 0 [195; 169]
                 eq_refl eq_refl eq_refl eq_refl eq_refl L
                 (fun E => ltac:(discriminate E)) (fun E => ltac:(discriminate E)) eq_refl).
@@ -230,7 +261,7 @@ Print Assumptions C09_string_conversion_refuted.
 Theorem C09_string_conversion_agree_partial :
   forall chars ffmt d pre post aw ap a extra wv pv s,
   wf_dir d = true -> d_conv d = Cs -> c_defined d = true ->
-  no_pct pre = true -> no_pct post = true -> in_lim d wv pv ->
+  no_pct pre = true -> no_pct post = true -> lim d wv pv ->
   (d_width d = WStar -> awk_int (v_num aw) = Some wv) ->
   (d_prec d = PrStar -> awk_int (v_num ap) = Some pv) ->
   v_str ffmt a = Ok s ->
@@ -250,7 +281,7 @@ Proof. split; vm_compute; reflexivity. Qed.
 (* %c with any width and the - flag: the character padded with spaces *)
 Theorem C09_percent_c : forall chars ffmt d pre post aw ap a extra wv pv ch,
   wf_dir d = true -> d_conv d = Cc -> c_defined d = true ->
-  no_pct pre = true -> no_pct post = true -> in_lim d wv pv ->
+  no_pct pre = true -> no_pct post = true -> lim d wv pv ->
   (d_width d = WStar -> awk_int (v_num aw) = Some wv) ->
   conv_c chars ffmt a = Ok ch -> rune_count ch = 1 ->
   sprintf chars ffmt (pre ++ render d ++ post) (args_for d aw ap a extra)
@@ -286,11 +317,32 @@ Example C09_ex_percent_c :
   /\ sprintf false ffmt_unmod (bs "%c") [VStr [] (FFin 0 0)] = Ok [0].     (* "" prints a NUL: left open by the property *)
 Proof. repeat split; vm_compute; reflexivity. Qed.
 
+(* ================= e E f g G of infinities and NaN ================= *)
+
+(* F-C09-6 repaired: the full statement for non-finite arguments — every flag set, width, precision *)
+Theorem C09_nonfinite_agree : forall chars ffmt d pre post aw ap a extra wv pv x,
+  wf_dir d = true -> is_float_conv (d_conv d) = true ->
+  no_pct pre = true -> no_pct post = true -> lim d wv pv ->
+  (d_width d = WStar -> awk_int (v_num aw) = Some wv) ->
+  (d_prec d = PrStar -> awk_int (v_num ap) = Some pv) ->
+  v_num a = x -> (match x with FFin _ _ => False | _ => True end) ->
+  sprintf chars ffmt (pre ++ render d ++ post) (args_for d aw ap a extra)
+  = Ok (pre ++ c_directive chars d wv pv (ANonFin x) ++ post).
+Proof. exact sprintf_nonfinite_agree. Qed.
+Print Assumptions C09_nonfinite_agree.
+
+Example C09_ex_nonfinite :
+  sprintf false ffmt_unmod (bs "%f|%e|%G|%8E|%-6g|%+f|% 05.1f|%g")
+    [VNum (FInf true); VNum (FInf false); VNum (FInf true); VNum FNaN; VNum (FInf false); VNum (FInf false); VNum FNaN; VNum FNaN]
+  = Ok (bs "-inf|inf|-INF|     NAN|inf   |+inf|  nan|nan").
+Proof. vm_compute. reflexivity. Qed.
+
 (* ================= whole formats ================= *)
 
-(* any number of conversion specifications (d i o u x X c s, mixed), each preceded by literal
-   text, arguments taken in order, extra arguments ignored: sprintf prints the concatenation of
-   what C prints for each.  [item_ok] holds for the three families under the guards above. *)
+(* any number of conversion specifications, each preceded by literal text, arguments taken in
+   order, extra arguments ignored: sprintf prints the concatenation of what C prints for each
+   (negative '*' precisions anywhere in the format included: the cut positions stay right).
+   [item_ok] holds for the integer, string and character conversions under the guards above. *)
 Theorem C09_whole_format_agree_partial : forall chars ffmt items post extra,
   Forall (item_ok chars ffmt) items -> no_pct post = true ->
   sprintf chars ffmt (fmt_of items post) (args_of items extra) = Ok (expected chars items post).
@@ -298,18 +350,18 @@ Proof. exact sprintf_items. Qed.
 Print Assumptions C09_whole_format_agree_partial.
 
 Theorem C09_item_int : forall chars ffmt pre d wv pv aw ap a v,
-  wf_dir d = true -> is_int_conv (d_conv d) = true -> no_pct pre = true -> in_lim d wv pv ->
+  wf_dir d = true -> is_int_conv (d_conv d) = true -> no_pct pre = true -> lim d wv pv ->
   (d_width d = WStar -> awk_int (v_num aw) = Some wv) ->
   (d_prec d = PrStar -> awk_int (v_num ap) = Some pv) ->
-  awk_int (v_num a) = Some v -> - two63 <= v < two63 ->
+  awk_int (v_num a) = Some v ->
+  (conv_ty (d_conv d) = TyU -> - two63 <= v < two64) ->
   int_ok d (resolve d wv pv) v ->
-  item_ok chars ffmt (mkItem pre d wv pv aw ap a
-    (match conv_ty (d_conv d) with TyD => GInt v | _ => GUint (v mod two64) end) (AInt v)).
+  exists g, item_ok chars ffmt (mkItem pre d wv pv aw ap a g (AInt v)).
 Proof. exact item_ok_int. Qed.
 Print Assumptions C09_item_int.
 
 Theorem C09_item_string : forall chars ffmt pre d wv pv aw ap a s,
-  wf_dir d = true -> d_conv d = Cs -> c_defined d = true -> no_pct pre = true -> in_lim d wv pv ->
+  wf_dir d = true -> d_conv d = Cs -> c_defined d = true -> no_pct pre = true -> lim d wv pv ->
   (d_width d = WStar -> awk_int (v_num aw) = Some wv) ->
   (d_prec d = PrStar -> awk_int (v_num ap) = Some pv) ->
   v_str ffmt a = Ok s ->
@@ -319,28 +371,32 @@ Proof. exact item_ok_s. Qed.
 Print Assumptions C09_item_string.
 
 Theorem C09_item_char : forall chars ffmt pre d wv pv aw ap a ch,
-  wf_dir d = true -> d_conv d = Cc -> c_defined d = true -> no_pct pre = true -> in_lim d wv pv ->
+  wf_dir d = true -> d_conv d = Cc -> c_defined d = true -> no_pct pre = true -> lim d wv pv ->
   (d_width d = WStar -> awk_int (v_num aw) = Some wv) ->
   conv_c chars ffmt a = Ok ch -> rune_count ch = 1 ->
   item_ok chars ffmt (mkItem pre d wv pv aw ap a (GBytes ch) (AChar ch)).
 Proof. exact item_ok_c. Qed.
 Print Assumptions C09_item_char.
 
-(* non-vacuity: the format "n=%5d %s|%c!" with arguments 42, "ab", 65, and one extra argument *)
+(* non-vacuity: "n=%.*d %s|%c!" with a negative precision argument, then "ab", 65, and an extra argument *)
 Definition ex_items : list ditem :=
-  [ mkItem (bs "n=") (mkDir [] (WLit [53]) PrNone Cd) 0 0 VNull VNull (n 42) (GInt 42) (AInt 42);
+  [ mkItem (bs "n=") (mkDir [] WNone PrStar Cd) 0 (-3) VNull (n (-3)) (n 42) (GInt 42) (AInt 42);
     mkItem (bs " ") (mkDir [] WNone PrNone Cs) 0 0 VNull VNull (VStr (bs "ab") (FFin 0 0)) (GStr (bs "ab")) (AStr (bs "ab"));
     mkItem (bs "|") (mkDir [] WNone PrNone Cc) 0 0 VNull VNull (n 65) (GBytes [65]) (AChar [65]) ].
 Example C09_ex_whole_format :
-  fmt_of ex_items (bs "!") = bs "n=%5d %s|%c!" /\
-  Forall (item_ok false ffmt_unmod) ex_items /\
-  sprintf false ffmt_unmod (bs "n=%5d %s|%c!") (args_of ex_items [n 7]) = Ok (bs "n=   42 ab|A!").
+  fmt_of ex_items (bs "!") = bs "n=%.*d %s|%c!" /\
+  sprintf false ffmt_unmod (bs "n=%.*d %s|%c!") (args_of ex_items [n 7]) = Ok (bs "n=42 ab|A!") /\
+  expected false ex_items (bs "!") = bs "n=42 ab|A!".
+Proof. repeat split; vm_compute; reflexivity. Qed.
+Example C09_ex_whole_format_items_ok : Forall (item_ok false ffmt_unmod) ex_items.
 Proof.
-  split; [vm_compute; reflexivity|]. split; [|vm_compute; reflexivity].
   apply Forall_cons; [|apply Forall_cons; [|apply Forall_cons; [|apply Forall_nil]]].
-  - apply (item_ok_int false ffmt_unmod (bs "n=") (mkDir [] (WLit [53]) PrNone Cd) 0 0 VNull VNull (n 42) 42);
-      try reflexivity; try discriminate; try (vm_compute; split; [discriminate | reflexivity]).
-    vm_compute. intros (H1 & _). discriminate H1.
+  - destruct (item_ok_int false ffmt_unmod (bs "n=") (mkDir [] WNone PrStar Cd) 0 (-3) VNull (n (-3)) (n 42) 42) as (g & Hg);
+      try reflexivity; try discriminate.
+    + split; [exact I | vm_compute; split; discriminate].
+    + vm_compute. intros (H1 & _). discriminate H1.
+    + assert (g = GInt 42) as ->; [|exact Hg].
+      destruct Hg as (_ & _ & _ & _ & _ & Hc & _). cbn in Hc. vm_compute in Hc. injection Hc as <-. reflexivity.
   - apply (item_ok_s false ffmt_unmod (bs " ") (mkDir [] WNone PrNone Cs) 0 0 VNull VNull (VStr (bs "ab") (FFin 0 0)) (bs "ab"));
       try reflexivity; try discriminate; [split; exact I | left; reflexivity].
   - apply (item_ok_c false ffmt_unmod (bs "|") (mkDir [] WNone PrNone Cc) 0 0 VNull VNull (n 65) [65]);
